@@ -1,7 +1,7 @@
 (** C05 — state queries agree with the schedule, whatever was asked before.
     Statements only; proofs in proofs/Queries.v, SessionInv.v, Partition.v, Tracking.v. *)
 From JSL Require Import Base Instance Dstate Filters World Observers Session Feasible Derived QuerySpec
-     DispatchFun Inv Run Replay Tracking Queries Partition SessionInv UnschedObs.
+     DispatchFun Inv Run Replay Tracking Queries Partition SessionInv UnschedObs Clock AnyClock.
 From Coq Require Import Permutation.
 
 (** For every instance with durations >= 0, every filter configuration and
@@ -48,6 +48,35 @@ Proof.
   split; [exact (completed_ongoing_disjoint I fs d)|reflexivity].
 Qed.
 Print Assumptions C05_partitions.
+
+(** User-defined filters. [Dispatcher] accepts any callable as
+    [ready_operations_filter]; the model's filter names enumerate the built-in
+    ones. [dispatch] never consults the filter, so the states reached are the
+    same; the filter enters [ongoing_operations()], [completed_operations()] and
+    [uncompleted_operations()] only through the value of [current_time()].
+    Whatever that value [t] is (under a user-defined filter it may even go DOWN
+    from one state to the next), on every reachable state: ongoing at [t] = the
+    scheduled operations that end after [t]; completed at [t] = those that
+    ended by [t]; the two partition the scheduled operations; uncompleted =
+    unscheduled ++ ongoing. The built-in clock is the instance [t = p_now]. *)
+Theorem C05_partitions_at_any_clock :
+  forall (I : instance) (fs : list fname) (evs : list val) (t : Z), valid I ->
+    let d := core (run_world I evs (init_w obs I fs)) in
+    (forall y, In y (ongoing_at I t (sched d)) <-> In y (all_sops (sched d)) /\ t < s_end I y) /\
+    (forall k, In k (completed_at I t d) <->
+               exists y, In y (all_sops (sched d)) /\ key y = k /\ s_end I y <= t) /\
+    (forall k, In k (p_sched I d) <->
+               In k (completed_at I t d) \/ In k (map key (ongoing_at I t (sched d)))) /\
+    (forall k, In k (completed_at I t d) -> ~ In k (map key (ongoing_at I t (sched d)))) /\
+    uncompleted_at I t d = p_unsched I d ++ map key (ongoing_at I t (sched d)) /\
+    completed_at I (p_now I fs d) d = p_completed I fs d.
+Proof.
+  intros I fs evs t Hv d. pose proof (proj1 (reachable_WInv I Hv fs evs)) as Hi. fold d in Hi.
+  split; [exact (ongoing_char I Hv d Hi t)|]. split; [exact (completed_at_char I Hv d Hi t)|].
+  split; [exact (completed_ongoing_partition_at I Hv d Hi t)|].
+  split; [exact (completed_ongoing_disjoint_at I d t)|]. split; reflexivity.
+Qed.
+Print Assumptions C05_partitions_at_any_clock.
 
 (** The unscheduled-operations observer, subscribed at the initial state (or
     since a reset, which restores [all_deques I]): after ANY request list its
